@@ -43,7 +43,7 @@ def main():
                 raise
             except Exception as e:  # a table function raised: broken tie, handled by the search
                 ctx.disagree('extraction failed', repr(e), None, traceback.format_exc()[-1500:])
-        audit = lib.build_and_audit(pid, getattr(mod, 'EXTRA_TARGETS', ()))
+        audit = lib.build_and_audit(pid, getattr(mod, 'EXTRA_TARGETS', ()), getattr(mod, 'EXTRA_PROPS', ()))
         try:
             mod.run(ctx)
         except (lib.InfraError, KeyboardInterrupt, SystemExit):
